@@ -70,8 +70,16 @@ def run_case(i, rng, tier):
     from histogrammar.defs import Factory
 
     label, sp = C.pick_spec(i, rng, tier)
+    force = None
+    bare = False
+    if i % 15 == 11 and not (S.kinds_in(sp) & {"Categorize", "Bag"}) and S.has_quantity(sp):
+        # every quantity a one-variable string expression: such a tree may also be filled with bare numbers
+        force = "str"
+        bare = True
     stream = S.gen_stream(rng, sp, rng.randint(0, 8))
     state = ("live", "live", "merged", "reloaded")[i % 4]
+    if i % 10 == 7:
+        state = "built"  # assembled by Stack.build / Fraction.build from filled trees
     proto = rng.choice([2, 3, 4, 5])
     failures = []
     counters = {"state:" + state: 1, "protocol:%d" % proto: 1}
@@ -81,15 +89,23 @@ def run_case(i, rng, tier):
     def bad(msg, **kw):
         failures.append(C.fail(None, msg, **dict(wit, **kw)))
 
-    h = C.fill_all(S.build(sp), stream)
+    h = C.fill_all(S.build(sp, force), stream)
     items = list(stream)
     if state == "merged":
         extra = S.gen_stream(rng, sp, rng.randint(0, 4))
-        h = h + C.fill_all(S.build(sp), extra)
+        h = h + C.fill_all(S.build(sp, force), extra)
         items += extra
     elif state == "reloaded":
         h = Factory.fromJson(json.loads(json.dumps(h.toJson())))
-    fillable = state != "reloaded"
+    elif state == "built":
+        bkind = rng.choice(["stack", "stack", "fraction"])
+        bstreams = [stream] + [S.gen_stream(rng, sp, rng.randint(0, 4)) for _ in range(rng.randint(1, 2))]
+        ostreams = [S.gen_stream(rng, sp, rng.randint(0, 3)) for _ in bstreams]
+        wit["built"] = bkind
+        counters["built:" + bkind] = 1
+        h = C.built_state(sp, bstreams, bkind)
+        h0copy = h.copy()
+    fillable = state not in ("reloaded", "built")
 
     before = O.text(h)
     try:
@@ -124,7 +140,7 @@ def run_case(i, rng, tier):
     n_steps = rng.randint(1, 6 if tier == "quick" else 10)
     other_items = S.gen_stream(rng, sp, rng.randint(0, 4))
     for _ in range(n_steps):
-        kind = rng.choice(["fill", "fill", "fillnp", "fillnp_scalar", "add", "iadd", "mul", "repickle"] if fillable else ["add", "iadd", "mul", "repickle"])
+        kind = rng.choice(["fill", "fill", "fillnp", "fillnp_scalar", "add", "iadd", "mul", "repickle", "fill_missing"] + (["fill_bare"] * 4 if bare else []) if fillable else ["add", "iadd", "mul", "repickle"])
         if kind == "mul" and S.has_transform(sp):
             kind = "repickle"
         try:
@@ -134,6 +150,37 @@ def run_case(i, rng, tier):
                 c.fill(r, w)
                 items.append((r, w))
                 steps.append("fill")
+            elif kind == "fill_bare":
+                # a bare number instead of a record: every one-variable expression takes it as its variable
+                crit = S.critical_values(sp)
+                v = rng.choice([x for vs in crit.values() for x in vs] or [0.5])
+                w = rng.choice([1.0, 0.5, 2.0])
+                h.fill(v, w)
+                c.fill(v, w)
+                rec = {f: v for f in S.NUMF + S.SELF}
+                rec.update(c="a", t="a")
+                items.append((rec, w))
+                counters["bare_value_fills"] = counters.get("bare_value_fills", 0) + 1
+                steps.append("fill(bare %r)" % S.jsonable(v))
+            elif kind == "fill_missing":
+                # a record that lacks one of the fields: whatever the original does with it, the clone does the same
+                r, w = S.gen_stream(rng, sp, 1, {"nonpos_p": 0.0})[0]
+                used = sorted({nd["f"] for _, nd in S.walk(sp) if "f" in nd})
+                if used:
+                    del r[rng.choice(used)]
+                res = []
+                for x_ in (h, c):
+                    try:
+                        x_.fill(dict(r), w)
+                        res.append(None)
+                    except Exception as e_:  # noqa: BLE001
+                        res.append(type(e_).__name__)
+                counters["missing_field_fills"] = counters.get("missing_field_fills", 0) + 1
+                if res[0] != res[1]:
+                    bad("fill of a record lacking a field: original %s, clone %s" % (res[0] or "succeeded", res[1] or "succeeded"), steps=steps, record=S.jsonable(r))
+                    break
+                ghost_ok = False
+                steps.append("fill(record lacking a field -> %s)" % (res[0] or "accepted"))
             elif kind == "fillnp" and S.has_quantity(sp):
                 recs = _np_safe(sp, [r for r, _ in S.gen_stream(rng, sp, rng.randint(0, 4))])
                 ws = [rng.choice([1.0, 0.5, 2.0, 0.0]) for _ in recs]
@@ -174,16 +221,42 @@ def run_case(i, rng, tier):
                 steps.append("fill.numpy(scalar %r)" % (wsc,))
                 if eh is not None:
                     break
+            elif kind in ("add", "iadd") and state == "built":
+                # merge with a copy of the original (shares nothing with the clone) or with an independently built one
+                if rng.random() < 0.5:
+                    o1, o2, what = h0copy.copy(), h0copy.copy(), "copy of the original"
+                else:
+                    o1, o2, what = C.built_state(sp, ostreams, bkind), C.built_state(sp, ostreams, bkind), "independently built"
+                outcome = []
+                for x_, o_ in ((h, o1), (c, o2)):
+                    try:
+                        if kind == "add":
+                            outcome.append((x_ + o_, None))
+                        else:
+                            x_ += o_
+                            outcome.append((x_, None))
+                    except Exception as e_:  # noqa: BLE001
+                        outcome.append((None, e_))
+                (rh, eh), (rc, ec) = outcome
+                counters["built_merges"] = counters.get("built_merges", 0) + 1
+                if (eh is None) != (ec is None):
+                    bad("%s with a %s: original %s, clone %s" % (kind, what, "raised %s: %s" % (type(eh).__name__, str(eh)[:80]) if eh else "succeeded", "raised %s: %s" % (type(ec).__name__, str(ec)[:80]) if ec else "succeeded"), steps=steps)
+                    break
+                if eh is not None:
+                    bad("merging two %s-built aggregators of the same structure (%s) raised %s: %s" % (bkind, what, type(eh).__name__, str(eh)[:120]), steps=steps)
+                    break
+                h, c = rh, rc
+                steps.append(("+ " if kind == "add" else "+= ") + what)
             elif kind == "add":
-                o1 = C.fill_all(S.build(sp), other_items)
-                o2 = C.fill_all(S.build(sp), other_items)
+                o1 = C.fill_all(S.build(sp, force), other_items)
+                o2 = C.fill_all(S.build(sp, force), other_items)
                 h = h + o1
                 c = c + o2
                 items = items + other_items
                 steps.append("+")
             elif kind == "iadd":
-                o1 = C.fill_all(S.build(sp), other_items)
-                o2 = C.fill_all(S.build(sp), other_items)
+                o1 = C.fill_all(S.build(sp, force), other_items)
+                o2 = C.fill_all(S.build(sp, force), other_items)
                 h += o1
                 c += o2
                 items = items + other_items
@@ -207,8 +280,8 @@ def run_case(i, rng, tier):
             bad("after %s the clone and the original differ: %s" % (" , ".join(steps), C.fmt_diff(d)), steps=steps)
             break
     if not failures:
-        if ghost_ok:
-            ok, d, _, inc = R.match(sp, items, O.drop_zero_sparse(O.observe(c)), O.scale_of(items) if items else 1.0, norm=O.drop_zero_sparse)
+        if ghost_ok and state != "built":
+            ok, d, _, inc = R.match(sp, items, O.drop_zero_sparse(O.observe(c)), O.scale_of(items) if items else 1.0, force=force, norm=O.drop_zero_sparse)
             counters["final_ghost_checks"] = 1
             if not ok and not inc:
                 bad("after the continuation the clone differs from the model of what it was given: %s" % C.fmt_diff(d), steps=steps)
@@ -233,7 +306,7 @@ def conclusive(agg):
     for fl in S.FLAVOURS:
         if fl not in agg.sets.get("flavours", ()):
             out.append("quantity flavour never generated: " + fl)
-    for c in ("state:live", "state:merged", "state:reloaded", "lockstep_comparisons", "final_ghost_checks"):
+    for c in ("state:live", "state:merged", "state:reloaded", "state:built", "built_merges", "bare_value_fills", "missing_field_fills", "lockstep_comparisons", "final_ghost_checks"):
         if not agg.counters.get(c):
             out.append("never exercised: " + c)
     miss = [k for k in S.ALL_KINDS if k not in agg.sets.get("kinds", ())]
